@@ -219,6 +219,32 @@ func c30Estimate(s c30Shape) (int64, error) {
 		VirtualSize()
 }
 
+// c30EstimateIncrementally builds the same shape on ONE estimator but reads the size
+// after every step (a caller sizing a transaction while it adds inputs, e.g. a table of
+// 1..N deposits): the last answer must be the one-shot answer.
+func c30EstimateIncrementally(s c30Shape) (int64, error) {
+	e := NewTransactionSizeEstimator()
+	steps := []func(){
+		func() { e.AddPublicKeyHashInputs(s.In[c30InP2PKH], false) },
+		func() { e.AddPublicKeyHashInputs(s.In[c30InP2WPKH], true) },
+		func() { e.AddScriptHashInputs(s.In[c30InP2SH92], 92, false) },
+		func() { e.AddScriptHashInputs(s.In[c30InP2SH126], 126, false) },
+		func() { e.AddScriptHashInputs(s.In[c30InP2WSH92], 92, true) },
+		func() { e.AddScriptHashInputs(s.In[c30InP2WSH126], 126, true) },
+		func() { e.AddPublicKeyHashOutputs(s.Out[c30OutP2PKH], false) },
+		func() { e.AddPublicKeyHashOutputs(s.Out[c30OutP2WPKH], true) },
+		func() { e.AddScriptHashOutputs(s.Out[c30OutP2SH], false) },
+		func() { e.AddScriptHashOutputs(s.Out[c30OutP2WSH], true) },
+	}
+	var last int64
+	var err error
+	for _, st := range steps {
+		st()
+		last, err = e.VirtualSize() // intermediate shapes may be refused; only the last answer counts
+	}
+	return last, err
+}
+
 // c30Real builds and signs the real transaction of the shape; returns it and the lengths
 // of the signatures it was given.
 func c30Real(s c30Shape) (*Transaction, []int, error) {
@@ -349,6 +375,15 @@ func c30Run(r *vrep.R, s c30Shape) {
 	if eerr != nil {
 		report("estimator-error", "estimator refused the shape: "+eerr.Error())
 		return
+	}
+	var inc int64
+	var ierr error
+	if p, stack := vrep.Guard(func() { inc, ierr = c30EstimateIncrementally(s) }); p != nil {
+		report("estimator-panic", fmt.Sprintf("estimator panicked when the size is read after every step: %v\n%s", p, stack))
+		return
+	}
+	if ierr != nil || inc != est {
+		report("estimate-depends-on-earlier-reads", fmt.Sprintf("built in one go the estimator answers %d vbytes; the same shape built on one estimator whose size was read after every step answers %d (err %v)", est, inc, ierr))
 	}
 	var tx *Transaction
 	var lens []int
